@@ -113,6 +113,33 @@ func (r *scRun) store(a map[string]interface{}) {
 		map[string]interface{}{"err": errs, "len": len(v.Encode())})
 }
 
+// storeRun: a whole stream written at once - one StoreSignedVAA per sequence of the ranges, all with one tag
+// (large stores: streams of hundreds of entries with equally large neighbours).
+func (r *scRun) storeRun(a map[string]interface{}) {
+	stm := vhMap(a, "st")
+	st := shID{EC: vhInt(stm, "ec", 0), Em: vhStr(stm, "em"), TC: vhInt(stm, "tc", 0)}
+	tag := vhStr(a, "tag")
+	ranges := []interface{}{}
+	n, errs := 0, ""
+	for _, rg := range vhList(a, "ranges") {
+		p, ok := rg.([]interface{})
+		if !ok || len(p) != 2 {
+			continue
+		}
+		lo, hi := int(p[0].(float64)), int(p[1].(float64))
+		ranges = append(ranges, []int{lo, hi})
+		for q := lo; q <= hi && errs == ""; q++ {
+			id := st
+			id.Seq = q
+			v := r.w.vaa(id, tag, 0)
+			errs = scGuard(func() error { return r.d.StoreSignedVAA(shToVAA(v)) })
+			n++
+		}
+	}
+	r.log("StoreRun", map[string]interface{}{"st": map[string]interface{}{"ec": st.EC, "em": st.Em, "tc": st.TC}, "tag": tag, "ranges": ranges},
+		map[string]interface{}{"err": errs, "n": n})
+}
+
 func (r *scRun) optVal(b []byte, found bool) []interface{} {
 	if !found {
 		return []interface{}{}
@@ -497,6 +524,8 @@ func scRunScenario(base string, sc vhScenario) ([]scLine, error) {
 		switch st.Ev {
 		case "Store":
 			r.store(st.A)
+		case "StoreRun":
+			r.storeRun(st.A)
 		case "Get":
 			r.get(st.A)
 		case "Gap":
